@@ -302,7 +302,6 @@ int64_t cmb_buffer_put(struct cmb_buffer *bp, uint64_t *amntp)
 
     cmb_assert_release(bp != NULL);
     cmb_assert_release(amntp != NULL);
-    cmb_assert_release(*amntp > 0u);
 
     struct cmi_resourcebase *rbp = (struct cmi_resourcebase *)bp;
     cmb_assert_release(rbp->cookie == CMI_INITIALIZED);
